@@ -173,4 +173,6 @@ def generate(lean_dir: str):
     out.append("\nend PdfVerif.Gen.ImageGen\n")
     path = os.path.join(lean_dir, "PdfVerif", "Gen", "ImageGen.lean")
     P.write_if_changed(path, "".join(out))
-    return [path]
+    # the naming model shared with C15 uses Gen/PathGen.lean: keep it current on C18 runs too
+    from . import gen_c15
+    return [path] + gen_c15.generate(lean_dir)
